@@ -12,7 +12,7 @@ import (
 )
 
 func init() {
-	register(&Rule{ID: "R15.write-gates", Props: []string{"C15", "C18"}, Floor: 20,
+	register(&Rule{ID: "R15.write-gates", Props: []string{"C15", "C18", "C03"}, Floor: 20,
 		Text: "every lock-table arm with write=true, and the eval/evalsha arm, tests followHost() != \"\" and readOnly() and returns the error before dispatch; the three script class switches have identical write lists, each within the lock-table write class; AtomicRW/NonAtomic gate their write arm the same way and AtomicRO returns errReadOnly for exactly that list",
 		Run:  ruleWriteGates})
 	register(&Rule{ID: "R15.read-gate", Props: []string{"C15", "C06"}, Floor: 20,
